@@ -123,6 +123,17 @@ namespace nmtools::index
                 return return_t{meta::Nothing};
             }
 
+            // following numpy, reject zero or negative extent (other than a single -1);
+            // this also avoids modulus by zero below
+            if (dst_numel == 0) {
+                return return_t{meta::Nothing};
+            }
+            for (size_t i=0; i<(size_t)len(dst_shape); i++) {
+                if ((index_t)at(dst_shape,i) < index_t(-1)) {
+                    return return_t{meta::Nothing};
+                }
+            }
+
             auto src_numel = (size_t)product(src_shape);
 
             if ((minus_1_count == 0) && (src_numel != dst_numel)) {
